@@ -378,6 +378,28 @@ pub fn shape_lattice(fam: Fam, ft: Ft, per_decade: usize) -> Vec<Cell> {
     v
 }
 
+/// Hypergeometric at the large end of the integer range (C03 / C05 quantify up to the extremes of u64; the
+/// constructor accepts N <= i64::MAX): N = 2^e and 1.5 * 2^e for e = 40..62, five (K/N, n/N) shapes each.
+/// Only tuples below the construction-cost guard (i.e. on the H2PE side, or cheap HIN) are kept.
+pub fn hyper_huge_cells() -> Vec<Cell> {
+    let mut v = vec![];
+    for e in 40..=62u32 {
+        for half in [0u32, 1] {
+            let nn = if half == 0 { 1u64 << e } else { (1u64 << e) / 2 * 3 };
+            if nn > i64::MAX as u64 {
+                continue;
+            }
+            for &(fk, fnn) in &[(0.5, 0.5), (0.4, 0.3), (0.1, 0.05), (1e-3, 0.3), (0.3, 1e-4)] {
+                let (kk, n) = ((nn as f64 * fk) as u64, (nn as f64 * fnn) as u64);
+                if kk <= nn && n <= nn && hyper_cost(nn, kk, n) <= HYPER_COST_MAX {
+                    v.push(Cell::newi(Fam::Hypergeometric, &[nn, kk, n], &[]));
+                }
+            }
+        }
+    }
+    v
+}
+
 /// A random cell inside E; 25 % of the mass on near-switch perturbations.
 pub fn random_cell(fam: Fam, ft: Ft, r: &mut BaseRng) -> Cell {
     let (slo, shi) = shape_range(fam, ft);
